@@ -4,7 +4,6 @@ import importlib, json, os, sys
 sys.path.insert(0, os.path.dirname(os.path.abspath(__file__)))
 PROPS = [json.loads(l)["id"] for l in open("properties.jsonl")]
 NA = {
- "C19": "agreement of hand-written bit-vector arithmetic with two's complement / IEEE-754 quantifies over every bit pattern; no structural necessary condition in reach of dataflow or type-level analysis, and bit-vector reasoning is solver territory, a different family (DESIGN.md section 4, C19)",
 }
 TECH = {
  "C01": "MIR arm-table extraction + abstract interpretation over enum tags (dispatch identity); call-graph reachability (nondeterminism sources); clone/emit provenance",
@@ -25,6 +24,7 @@ TECH = {
  "C16": "arm-table identity of the device / item dispatch over MIR; constant propagation over every path of the PRINT state machine; field ownership and must-pass-through of the per-device column counter; truth table over ASCII of the line-end predicate; format-template decoding of the number frame",
  "C17": "accessor provenance of count/position arguments over MIR",
  "C18": "dominance of insert by contains_key guard; Result-must-propagate; sibling agreement of console/file branches",
+ "C19": "truth tables of the element-wise boolean functions read from the branch structure of the loop body; linear form of the NOT result; writer byte tables against the reader's walk (sibling-table agreement); layout constants of the double format on the encoding and decoding side",
  "C20": "typestate walk of every Parser::parse body (position/softness contract), inductive over parser construction",
 }
 checks = []
